@@ -179,7 +179,7 @@ def gen_edit(r):
 
 def base_specs(tier, seed):
     specs = [{"src": "fixture", "name": n} for n in files.fixture_names()]
-    n = 30 if tier == "quick" else 400
+    n = 30 if tier == "quick" else 200
     specs += [{"src": "gen", "seed": seeds.derive(seed, "c06gen", i) % (1 << 31), "nest": i % 2 == 0, "n": 25, "layout": 2} for i in range(n)]
     return specs
 
@@ -208,7 +208,7 @@ def generate(seed, i, tier="quick", spec=None):
 def plan(tier, seed):
     units = []
     specs = base_specs(tier, seed)
-    per_file = 30 if tier == "quick" else 600
+    per_file = 30 if tier == "quick" else 400
     for j, spec in enumerate(specs):
         rich = spec["src"] == "fixture" and any(x in spec["name"] for x in ("sampler", "metamodule", "multi", "spectra", "analog", "fmx", "generator", "waveshaper", "vorbis"))
         units.append({"kind": "file", "file": spec, "seed": seed, "first": j * 100000, "count": per_file * (4 if rich else 1), "tier": tier})
